@@ -482,6 +482,22 @@ class Hist:
         for v in list(self.versions):
             if v <= n:
                 del self.versions[v]
+        if 0 < self.base <= n and r.random() < 0.7:
+            # the version the tree object was loaded at has just been deleted: it is gone for every query, also
+            # for the ones that could be answered from what the object still holds in memory
+            b = self.base
+            self.emit("vexists %d" % b)
+            self.emit("imm %d hash" % b)
+            self.emit("imm %d get %s" % (b, enc(self.probe_key())))
+            self.emit("imm %d iterate" % b)
+            self.emit("getv %s %d" % (enc(self.probe_key()), b))
+            self.emit("avail")
+            if self.dirty:
+                self.rollback()
+            self.emit("load 0")
+            self.base = self.latest()
+            self.working = dict(self.versions[self.base])
+            self.curlog = []
 
     def reopen(self, target=None):
         r = self.r
